@@ -27,11 +27,14 @@ func runTransparency(c *fw.Ctx, idx int, concurrent bool) fw.Result {
 	}
 	res.Count("operations_skipped_known_finding_C01F1", int64(in.skipped))
 	res.Count("operations_with_twin_fragments", int64(in.twins))
+	if in.favourable {
+		res.Count("cases_with_scoped_twin_and_parent_outside_the_scope_in_the_data", 1)
+	}
 	if len(in.ops) == 0 {
 		res.Inconclusive = "no-operation: every generated operation fell into an excluded class"
 		return res
 	}
-	feat := featureString(in.prof)
+	feat := in.feat
 	res.Observe("layout_features", feat)
 	res.Observe(kindName+"_option_sets", ms)
 	// ---- the pool of requests and the history
@@ -86,7 +89,7 @@ func runTransparency(c *fw.Ctx, idx int, concurrent bool) fw.Result {
 			res.Broken("gateway construction (generator self-check): "+err.Error(), in.layoutDetail())
 			return res
 		}
-		fw.SetContext(map[string]any{"operation": q.Text, "variables": string(q.Vars), "supergraph": in.l.SuperSDL, "engine": "fresh default"})
+		fw.SetContext(map[string]any{"operation": q.Text, "variables": string(q.Vars), "supergraph": in.superSDL, "engine": "fresh default"})
 		refs[k] = execute(g0, q, true, false)
 		g0.Close()
 		res.Count("reference_engines", 1)
@@ -141,6 +144,37 @@ func runTransparency(c *fw.Ctx, idx int, concurrent bool) fw.Result {
 			}
 		}
 	}
+	// ---- the de-duplication toggle alone, on the operations built for it: an operation that selects
+	// a field on the interface and again under one concrete type is answered by a fresh engine with
+	// fetch de-duplication off exactly as by the fresh default engine
+	for _, q := range in.ops {
+		if q.TwinScopedTo == "" {
+			continue
+		}
+		want := refs[q.key()]
+		if want == nil || want.Err != "" || want.Panic != "" {
+			continue
+		}
+		g1, err := newGateway(in, 1)
+		if err != nil {
+			break
+		}
+		o := execute(g1, q, true, false)
+		g1.Close()
+		res.Count("dedup_toggle_pairs_compared", 1)
+		if len(o.Reqs) > len(want.Reqs) {
+			res.Count("dedup_toggle_pairs_with_more_requests_when_off", 1)
+		}
+		if kind, msg := compareOutcome(want, o); kind != "" {
+			d := in.layoutDetail()
+			d["operation"], d["variables"] = q.Text, string(q.Vars)
+			d["fresh_default_engine"], d["fresh_engine_dedup_off"] = truncate(want.outcome(), 3000), truncate(o.outcome(), 3000)
+			d["first_difference"] = firstDiff(want.outcome(), o.outcome())
+			d["requests_default"], d["requests_dedup_off"] = reqDump(want.Reqs), reqDump(o.Reqs)
+			res.Violate("transparency."+kind, "a fresh engine with fetch de-duplication off and a fresh default engine answer the same request differently: "+msg,
+				map[string]string{"mode": "toggle", "dedup_off": "true", "multifetch_on": "false", "schedule_on": "false", "minify_on": "false", "request_kind": "base", "cache_hit": "false"}, d)
+		}
+	}
 	// ---- the shared engine
 	gs, err := newGateway(in, mask)
 	if err != nil {
@@ -173,7 +207,7 @@ func runTransparency(c *fw.Ctx, idx int, concurrent bool) fw.Result {
 	if !concurrent {
 		for at, i := range hist {
 			q := pool[i]
-			fw.SetContext(map[string]any{"operation": q.Text, "variables": string(q.Vars), "supergraph": in.l.SuperSDL, "engine": "shared " + ms, "history_position": at})
+			fw.SetContext(map[string]any{"operation": q.Text, "variables": string(q.Vars), "supergraph": in.superSDL, "engine": "shared " + ms, "history_position": at})
 			before := gs.Engine.VerifCachedPlans()
 			o := execute(gs, q, true, false)
 			after := gs.Engine.VerifCachedPlans()
@@ -185,7 +219,7 @@ func runTransparency(c *fw.Ctx, idx int, concurrent bool) fw.Result {
 			}
 		}
 	} else {
-		fw.SetContext(map[string]any{"supergraph": in.l.SuperSDL, "engine": "shared " + ms, "mode": "concurrent", "pool": poolTexts(pool)})
+		fw.SetContext(map[string]any{"supergraph": in.superSDL, "engine": "shared " + ms, "mode": "concurrent", "pool": poolTexts(pool)})
 		var mu sync.Mutex
 		var wg sync.WaitGroup
 		start := make(chan struct{})
@@ -336,6 +370,20 @@ func runTransparency(c *fw.Ctx, idx int, concurrent bool) fw.Result {
 						}
 					}
 				}
+				if !confined && !reproduced {
+					// and the other way round: does the shared engine's own (cached) plan send the
+					// expected set, or varying sets, when the request is simply repeated now?
+					for i := 0; i < selfRepeats && !reproduced; i++ {
+						o2 := execute(gs, q, true, false)
+						if o2.Err != "" || o2.Panic != "" {
+							break
+						}
+						again := reqSet(o2.Reqs)
+						if sameStrings(blankMinifiedKeys(again), blankMinifiedKeys(wantSet)) || !sameStrings(blankMinifiedKeys(again), blankMinifiedKeys(got)) {
+							reproduced = true
+						}
+					}
+				}
 				if reproduced {
 					res.Count("seq_runtime_request_variation_of_one_plan", 1)
 				} else {
@@ -470,7 +518,7 @@ func runTransparency(c *fw.Ctx, idx int, concurrent bool) fw.Result {
 			h = append(h, pool[i].Text, pool[i].Vars)
 		}
 		res.Keys = []string{fw.HashKey(h...)}
-		res.Sample = map[string]any{"kind": "transparency " + kindName, "layout": in.l.Describe, "option_set": ms, "history": histDesc(), "cache_served_responses_compared": hitsCompared, "first_operation": in.ops[0].Text}
+		res.Sample = map[string]any{"kind": "transparency " + kindName, "layout": in.describe, "option_set": ms, "history": histDesc(), "cache_served_responses_compared": hitsCompared, "first_operation": in.ops[0].Text}
 	}
 	return res
 }
